@@ -314,7 +314,16 @@ def _supercell_scene(ctx, shape, periodic, kvec, widths, walls=False):
     return it, sc, Obj(OC, {"object_list": objs, "volume_idx": 0}, "objects"), cfg, cplx
 
 
-def _one_step(it, sc, objs, cfg, E, H, ie, im):
+def _one_step(it, sc, objs, cfg, E, H, ie, im, disp=None):
+    if disp is not None:
+        P, Qp, c1, c2, c3 = disp
+        arrays = sc.arrays(fields=sc.fields(E=E, H=H, dispersive_P_curr=P, dispersive_P_prev=Qp), inv_permittivities=ie, inv_permeabilities=im, detector_states={}, dispersive_c1=c1, dispersive_c2=c2, dispersive_c3=c3, dispersive_c4=None)
+        try:
+            state = it.call_function("fdtdx.fdtd.forward.forward", state=(0, arrays), config=cfg, objects=objs, key=Rat.atom("key"), record_detectors=False, record_boundaries=False, simulate_boundaries=True)
+        except Raised as r:
+            raise AnalysisError(f"forward raises on the concrete periodic scene with oriented poles: {r}")
+        f = state[1].attrs["fields"]
+        return f.attrs["E"], f.attrs["H"], f.attrs["dispersive_P_curr"]
     arrays = sc.arrays(fields=sc.fields(E=E, H=H), inv_permittivities=ie, inv_permeabilities=im, detector_states={})
     try:
         state = it.call_function("fdtdx.fdtd.forward.forward", state=(0, arrays), config=cfg, objects=objs, key=Rat.atom("key"), record_detectors=False, record_boundaries=False, simulate_boundaries=True)
@@ -380,6 +389,67 @@ def _supercell_case(ctx, payload):
     ctx.ob("R9.5", f"supercell-step[{label}]", bad is None and n >= 6 * 8, f"one whole forward step of the {big} supercell (materials tiled {reps}, fields tiled with the Bloch phase per copy, same faces{', cell widths tiled' if stretched else ''}) equals the tiled step of the {shape} cell, entry by entry as rational functions of free field, material{' and cell-width' if stretched else ''} symbols" + (f" — differs for {bad[0]}" if bad else ""), bad[1] if bad else f"{n} entries", bad[2] if bad else "tile(step(cell))")
 
 
+def _lead_tile(F, reps, phases=None):
+    """tile an array with two leading axes (pole, component) over its three spatial axes"""
+    a, b = F.shape[:2]
+    flat = NdArr((a * b,) + F.shape[2:], list(F.data))
+    t = _tile(flat, reps, phases)
+    return NdArr((a, b) + t.shape[1:], list(t.data))
+
+
+def _oriented_case(ctx, payload):
+    """the same identity with an oriented-pole medium (3x3 coupling per pole, full permittivity tensor) that fills only
+    part of the cell, across a Bloch seam: the coefficient halo of the symmetrised off-diagonal coupling must wrap
+    exactly where the field halo wraps"""
+    from .. import absint
+
+    label, shape, reps, periodic, kvec = payload
+    big = tuple(shape[a] * reps[a] for a in range(3))
+    cells = list(itertools.product(*[range(n) for n in shape]))
+    medium = lambda p: p[0] == 0  # the first layer along x carries the poles; the rest of the cell is plain
+
+    def nonzero_coeff(op, d):
+        ats = d.atoms()
+        if len(ats) == 1:
+            (a_,) = ats
+            if isinstance(a_, tuple) and a_ and a_[0] in ("g", "a", "b") and (d - Rat.atom(a_)).is_zero():
+                return {"eq": False, "ne": True}.get(op)
+        return None
+
+    tab = lambda nm, comps: NdArr((1, comps) + shape, [(Rat.atom((nm, c) + p) if medium(p) else 0) for c in range(comps) for p in cells])
+    E0, H0 = _sym_arr("E", 3, shape), _sym_arr("H", 3, shape)
+    ie, im = _sym_arr("ie", 9, shape), _sym_arr("im", 1, shape)
+    P0 = NdArr((1, 3) + shape, [Rat.atom(("P", c) + p) if medium(p) else 0 for c in range(3) for p in cells])
+    Q0 = NdArr((1, 3) + shape, [Rat.atom(("Q", c) + p) if medium(p) else 0 for c in range(3) for p in cells])
+    c1, c2, c3 = tab("a", 3), tab("b", 3), tab("g", 9)
+    absint.COMPARE_ORACLES.append(nonzero_coeff)
+    try:
+        it, sc, objs, cfg, cplx = _supercell_scene(ctx, shape, periodic, kvec, None)
+        E1, H1, P1 = _one_step(it, sc, objs, cfg, E0, H0, ie, im, disp=(P0, Q0, c1, c2, c3))
+        phases = None
+        if cplx:
+            phases = [Rat.const(1) if (to_rat(kvec[a]).is_zero() or not periodic[a]) else apply_fn("exp", Rat.atom(I) * to_rat(kvec[a]) * shape[a] * Rat.atom("res")) for a in range(3)]
+        itb, scb, objsb, cfgb, _ = _supercell_scene(ctx, big, periodic, kvec, None)
+        EB, HB, PB = _one_step(itb, scb, objsb, cfgb, _tile(E0, reps, phases), _tile(H0, reps, phases), _tile(ie, reps), _tile(im, reps), disp=(_lead_tile(P0, reps, phases), _lead_tile(Q0, reps, phases), _lead_tile(c1, reps), _lead_tile(c2, reps), _lead_tile(c3, reps)))
+    finally:
+        absint.COMPARE_ORACLES.remove(nonzero_coeff)
+    bad, n = None, 0
+    for nm, got, want in (("E", EB, _tile(E1, reps, phases)), ("H", HB, _tile(H1, reps, phases)), ("P", PB, _lead_tile(P1, reps, phases))):
+        if not (isinstance(got, NdArr) and got.shape == want.shape):
+            raise AnalysisError(f"{label}: step returns {getattr(got, 'shape', got)} for {nm}")
+        for i, (g, w) in enumerate(zip(got.data, want.data)):
+            n += 1
+            if not to_rat(g).equals(to_rat(w)) and not normalise_exp(to_rat(g) - to_rat(w)).is_zero():
+                bad = bad or (f"{nm} entry {i} of {got.shape}", to_rat(g).fmt()[:240], to_rat(w).fmt()[:240])
+    ctx.ob("R9.5", f"supercell-step[{label}]", bad is None and n >= 100, f"one whole forward step of the {big} supercell equals the tiled step of the {shape} cell for fields and stored polarisation, with an oriented-pole medium in part of the cell (3x3 coupling, symmetrised pair weights read the coefficient halo across the seam)" + (f" — differs for {bad[0]}" if bad else ""), bad[1] if bad else f"{n} entries", bad[2] if bad else "tile(step(cell))")
+
+
+ORIENTED = [
+    ("oriented-poles:x-bloch", (2, 2, 2), (2, 1, 1), (True, False, False), (Fr(3, 2), 0, 0)),
+    ("oriented-poles:x-periodic", (2, 2, 2), (2, 1, 1), (True, False, False), (0, 0, 0)),
+]
+
+
 def _supercell_steps(ctx, tier):
     from .. import par
 
@@ -391,6 +461,9 @@ def _supercell_steps(ctx, tier):
     err = par.run_jobs(ctx, "sa.checks.c09", "_supercell_case", cases, [c[0] for c in cases])
     if err:
         raise AnalysisError(err)
+    err = par.run_jobs(ctx, "sa.checks.c09", "_oriented_case", ORIENTED, [c[0] for c in ORIENTED])
+    if err:
+        raise AnalysisError(err)
 
 
 def run(ctx):
@@ -399,6 +472,6 @@ def run(ctx):
     _who_may_pad(ctx)
     _config_kinds(ctx)
     _supercell_steps(ctx, ctx.tier)
-    ctx.require_count("C09", len(ctx.obligations), 16 + len(SUPERCELLS))
+    ctx.require_count("C09", len(ctx.obligations), 16 + len(SUPERCELLS) + len(ORIENTED))
     ctx.trusted_base += ["np.pad model on concrete arrays", "syntax-tree def-use of the padded inputs (single-assignment names)"]
     ctx.assume("uniform resolution L = N*res or resolved-grid extent; the supercell copy c carries exp(i k c L)")
